@@ -129,7 +129,10 @@ def stream_qfork(ctx):
             threads.append([["log"], ["fork"]])
         msgs = ["t%d-%d" % (ti + 1, j) for ti, ops in enumerate(threads) for j, op in enumerate(ops) if op[0] == "log"]
         fail = [m for m in msgs if r0.chance(60)] or msgs[:1]
-        prog = {"procs": [0] * len(threads), "threads": threads, "fail": fail, "catch": True}
+        # the multiprocessing context the handler was given: whatever its start method, a raw os.fork() of the
+        # process must find the worker's lock protected
+        prog = {"procs": [0] * len(threads), "threads": threads, "fail": fail if r0.chance(70) else [], "catch": True,
+                "start_method": r0.choice(["fork", "fork", "spawn", "forkserver"])}
         if pi < 2:
             ctx.sample({"stream": "qfork", "program": prog})
 
